@@ -39,6 +39,9 @@ Lemma ob_conn_postpaid_returned_n :
 Proof. vm_compute. repeat split; reflexivity. Qed.
 Lemma ob_conn_returns_inner_result : conn_returns_inner_result = true.
 Proof. vm_compute. reflexivity. Qed.
+(* the wait is unconditional: Read/Write call WaitN(waitContext, n) directly with the package-level
+   context.Background() -- no deadline, no cancellation (a bounded or cancellable wait returns an error
+   without charging, and the error is dropped: the call would go unthrottled) *)
 Lemma ob_wait_context_is_background : wait_context_is_background = true.
 Proof. vm_compute. reflexivity. Qed.
 
